@@ -10,6 +10,7 @@ func init() {
 	verifRegister("VerifC10_KPriorSite", VerifC10_KPriorSite)
 	verifRegister("VerifC10_EOrder", VerifC10_EOrder)
 	verifRegister("VerifC10_EPrior", VerifC10_EPrior)
+	verifRegister("VerifC10_EPriorFail", VerifC10_EPriorFail)
 	verifRegister("VerifC10_KBuiltins", VerifC10_KBuiltins)
 	verifRegister("VerifC10_EShared", VerifC10_EShared)
 }
@@ -57,6 +58,65 @@ func VerifC10_EOrder() {
 	vAssert(m0 == m1, "the error message does not depend on Go map iteration order")
 	vAssert(!strings.Contains(v0, "0xPTR") && !strings.Contains(m0, "0xPTR"), "no memory address appears in value or message")
 	vCover("end")
+}
+
+// A call that FAILS part-way through its work in one runtime (the program handles the error and goes
+// on) leaves nothing behind for the next runtime of the process: every pair (failing call, later
+// call) out of the lists below, the later call in a fresh runtime, against the same later call in
+// the first runtime of the path.  Scratch objects a builtin recycles (sync.Pool) come back dirty or
+// fresh at the solver's choice.
+var c10Failing = []string{
+	"(string:join '(\"left\" \"over\" 7) \"/\")",
+	"(string:join (list \"p\" \"q\" (lambda () 1)) \"--\")",
+	"(format-string \"{} and {} {}\" \"one\")",
+	"(concat 'string \"ab\" \"cd\" 5)",
+	"(json:dump-string (list \"first\" \"second\" (lambda () 1)))",
+	"(json:dump-string (sorted-map \"k1\" \"v1\" \"k2\" car))",
+	"(append-bytes (to-bytes \"xy\") (vector 65 \"z\"))",
+	"(to-string (map 'list (lambda (e) (if (= e 3) (error 'stop e) (to-string e))) '(1 2 3)))",
+	"(string:repeat \"ab\" -1)",
+	"(json:load-string \"[1, 2, {\\\"a\\\": tru\")",
+	"(base64:std-decode \"QUJD!!!\")",
+	"(time:parse-rfc3339 \"2024-06-15T12:30:4\")",
+}
+var c10Later = []string{
+	"(string:join '(\"a\" \"b\" \"c\") \"-\")",
+	"(format-string \"{}+{}\" 1 2)",
+	"(concat 'string \"e\" \"f\")",
+	"(json:dump-string (list \"g\" (sorted-map \"h\" 1)))",
+	"(to-string (append-bytes (to-bytes \"i\") (vector 66)))",
+	"(to-string (json:load-string \"[3, {\\\"j\\\": true}]\"))",
+	"(string:repeat \"k\" 3)",
+	"(to-string (base64:std-decode \"QUJD\"))",
+	"(time:format-rfc3339 (time:parse-rfc3339 \"2024-06-15T12:30:45Z\"))",
+	"(to-string (list 1.5 \"l\" 'm (vector 2)))",
+}
+
+func VerifC10_EPriorFail() {
+	fi := vConcInt(vndChoice("failing", len(c10Failing)))
+	li := vConcInt(vndChoice("later", len(c10Later)))
+	run := func() (string, int64) {
+		env := newEnv(nil, lisp.WithMaxSteps(1<<40))
+		loadStdlib(env)
+		r := env.LoadString("p", c10Later[li])
+		return outcome(r), env.Runtime.Steps()
+	}
+	v0, s0 := run()
+	e := newEnv(nil)
+	loadStdlib(e)
+	rf := e.LoadString("w", "(handler-bind ((condition (lambda (c &rest m) 'handled))) "+c10Failing[fi]+")")
+	vObserve("failing", c10Failing[fi])
+	vObserve("later", c10Later[li])
+	vObserve("prior outcome", outcome(rf))
+	v1, s1 := run()
+	vObserve("value", v0)
+	vAssert(v1 == v0, "a call that failed part-way in an earlier runtime leaves nothing behind for a later one; later run gave "+v1)
+	vAssert(s1 == s0, "nor does the step count change")
+	if rf.Type != lisp.LError && rf.String() == "'handled" {
+		vCover("prior-failed")
+	} else {
+		vCover("prior-other")
+	}
 }
 
 // nothing observable depends on other runtimes that ran earlier in the same process: the first
